@@ -391,34 +391,27 @@ func c15R3(e *Engine) {
 		for _, op := range []string{"PutItem", "DeleteItem"} {
 			e.check(ms[op] != nil && rs[ms[op]], "R3", construct+":routes-through-"+op, e.pos(bw.Pos()), "batch write reaches the client's own checked %s", op)
 		}
-		// (c) the dispatch call is unconditional inside the two range loops
+		// (c) the dispatch call is unconditional inside the two range loops (which may be split over helpers)
 		var dispatch ssa.CallInstruction
 		var handlerCall ssa.CallInstruction
-		instrs(bw, func(in ssa.Instruction) {
-			c, ok := in.(ssa.CallInstruction)
-			if !ok || isBuiltin(c) {
-				return
-			}
-			for _, g := range e.callees(c) {
-				if e.fnRole(g) != role {
-					continue
-				}
-				gs := e.reach(g)
-				if ms["PutItem"] != nil && gs[ms["PutItem"]] && dispatch == nil {
-					dispatch = c
-				}
-				if isBatchHandler(g) {
-					handlerCall = c
-				}
-			}
-		})
+		dsite, hsite := e.batchWritePath(role)
+		if dsite != nil {
+			dispatch = dsite.call
+		}
+		if hsite != nil {
+			handlerCall = hsite.call
+		}
 		if dispatch == nil {
 			e.fail("R3", construct+":dispatch-unconditional", e.pos(bw.Pos()), "no per-request dispatch call found in BatchWriteItem")
 		} else {
 			di := dispatch.(ssa.Instruction)
 			bad := ""
 			ranges := 0
-			for _, c := range condsAt(di.Block()) {
+			var conds []Cond
+			for _, ci := range dsite.chainInstrs() {
+				conds = append(conds, condsAt(ci.Block())...)
+			}
+			for _, c := range conds {
 				v := c.V
 				if ex, ok := v.(*ssa.Extract); ok {
 					if _, isNext := ex.Tuple.(*ssa.Next); isNext && ex.Index == 0 {
@@ -440,8 +433,10 @@ func c15R3(e *Engine) {
 				bad = fmt.Sprintf("dispatch is inside %d range loops, expected the tables × requests double loop", ranges)
 			}
 			if bad == "" {
-				if _, why := e.visitsEveryElement(di, nil); why != "" {
-					bad = why + " – they are neither applied nor reported as unprocessed"
+				for _, ci := range dsite.chainInstrs() {
+					if _, why := e.visitsEveryElement(ci, nil); why != "" {
+						bad = why + " – they are neither applied nor reported as unprocessed"
+					}
 				}
 			}
 			if bad != "" {
@@ -458,21 +453,35 @@ func c15R3(e *Engine) {
 		h := e.callees(handlerCall)[0]
 		e.c15Handler(role, h)
 		// (e) handler's error result is propagated, the map it fills is the one returned
-		hv := handlerCall.(ssa.Value)
-		propagated := false
-		for _, ret := range returnsOf(bw) {
-			ei := errResultIndex(bw)
-			if ei >= 0 && strip(retVals(ret)[ei]) == hv {
-				if _, nn := knownNilness(ret.Block(), func(v ssa.Value) bool { return v == hv }); nn {
-					propagated = true
+		// the handler's error is returned by the function that calls it, and so on up to BatchWriteItem
+		propagated := true
+		cur := handlerCall.(ssa.Value)
+		for lvl := len(hsite.ctx); lvl >= 0; lvl-- {
+			fnAt := bw
+			if lvl > 0 {
+				fnAt = hsite.ctx[lvl-1].callee
+			}
+			okLvl := false
+			for _, ret := range returnsOf(fnAt) {
+				ei := errResultIndex(fnAt)
+				if ei >= 0 && strip(retVals(ret)[ei]) == strip(cur) {
+					if _, nn := knownNilness(ret.Block(), func(v ssa.Value) bool { return strip(v) == strip(cur) }); nn {
+						okLvl = true
+					}
 				}
+			}
+			if !okLvl {
+				propagated = false
+			}
+			if lvl > 0 {
+				cur = hsite.ctx[lvl-1].call.(ssa.Value)
 			}
 		}
 		e.check(propagated, "R3", construct+":handler-error-propagated", e.ipos(handlerCall.(ssa.Instruction)), "a non-nil result of the handler is returned to the caller")
 		var mapArg ssa.Value
 		for _, a := range handlerCall.Common().Args {
 			if _, ok := a.Type().Underlying().(*types.Map); ok {
-				mapArg = a
+				mapArg, _ = resolveParam(a, hsite.ctx)
 			}
 		}
 		outOK := false
